@@ -474,3 +474,34 @@ prop(
               ("dummy_rows_consistent_and_value_free", 1000), ("padding_shapes", 10), ("noise_shapes", 10),
               ("buckets_total_equals_exact_plus_three_draws", 500), ("per_pass_noise_negative_seen", 10), ("chi2_runs", 4)],
 )
+
+prop(
+    "C18",
+    level="model_checking",
+    rule=("cases = histories of API calls {new_query, prepare_helper, prepare_shard, receive_inputs, query_status, shard_status, complete, kill} "
+          "(+ 'release' of a peer that is slow to answer prepare) issued through the production request handlers of three real HelperApps x "
+          "{1,2,3} shards on in-memory MPC/shard transports, at coordinator / follower helpers and leader / non-leader shards, with real "
+          "TestMultiply / TestAddInPrimeField queries over Fp31 (good input; wrong-length input) and a hybrid query whose task returns Err, and "
+          "with a peer (follower leader, own shard, follower's shard) that rejects one prepare. Exhaustive part, after symmetry pruning "
+          "(followers H2/H3 and shards 1/2 interchangeable until first addressed; calls that are refused because of where they are sent "
+          "count as one letter whose instance rotates, at most one per history): every call sequence up to length 4 quick / 5 thorough for "
+          "1 shard, 3 / 4 for 2 shards, 2 / 3 for 3 shards, 1-2 / 2-3 for the reject and slow-peer worlds and the other query kinds, and "
+          "beyond that one continuation per distinct automaton state up to length 4-5 / 5-6 (82 k / 1.19 M histories); seeded random "
+          "histories of length 7 (20 000 / 240 000); a fixed list of whole lifecycles (two queries in a row), failed creates followed by a "
+          "create, kill in every state, calls during preparing; every combination of shard states of one helper (184 points) for the "
+          "status meet. After every call the paused-clock runtime runs until idle; response class, parked calls that must (not) return, and a "
+          "final status read of every (helper, shard) are compared with an independent six-state reference automaton + meet. A case is "
+          "distinct by the full state of the reference automaton reached before a call and non-trivial when the call was answered and compared"),
+    assumptions=["run-until-idle after every call: a query task has returned iff all three helpers of its shard column were given inputs (no Running/Completed race)",
+                 "the stream tables of a node are cleared when it answers complete/kill successfully, as the production HTTP transport does (ClearOnDrop) and TestApp does by hand",
+                 "answers to prepare sent over the in-memory MPC network are released 4 virtual ms after arrival so that the coordinator never drops an acknowledgement the test transport unwraps",
+                 "histories in which a query task was aborted (kill while running), orphaned or panicked itself are outside the no-panic clause; their task-dependent statuses are not predicted",
+                 "a sharded leader's complete that would park a shard's transport listener ends the history (artefact of the sequential in-memory listener)",
+                 "missing rollback of peers after a failed create is documented (TODOs in new_query/prepare_helper): both outcomes allowed, settled by a side-effect free probe"],
+    shards={"quick": 8, "thorough": 16},
+    min_evaluations={"quick": 300000, "thorough": 4000000},
+    must_see=[("transitions", 400), ("calls_answered", 38), ("lattice_points", 180), ("scenarios", 30),
+              ("histories_checked_to_the_end", 60000), ("results_reconstruct_to_expected_value", 10),
+              ("meet_table_entries_equal", 25)],
+    watchdog_s={"quick": 900, "thorough": 5400},
+)
